@@ -263,6 +263,24 @@ def run(res, f, tier):
                 problems.append(("comment lines must come from one iterator over the input text", srcs))
                 continue
             SRC = srcs[0] if srcs else None
+            # a line is a comment line (or not) by itself: a recogniser that carries state from one line to the next (a
+            # closure that writes to what it captured) makes earlier lines decide whether later comment lines count
+            def writes_captures(c_):
+                for blk_ in f.bodies[c_]["blocks"]:
+                    for st_ in blk_["stmts"]:
+                        if st_["k"] != "assign":
+                            continue
+                        pl_ = st_["place"]
+                        if pl_["l"] == 1 and any(e_[0] == "field" for e_ in pl_["p"]):
+                            return True
+                        rv_ = st_["rv"]
+                        if rv_["k"] in ("ref", "rawptr") and rv_.get("bk") == "mut" and rv_["place"]["l"] == 1 and any(e_[0] == "field" for e_ in rv_["place"]["p"]):
+                            return True
+                return False
+            stateful = [c_ for c_ in re.findall(r"closure\(([^(),]+)", SRC or "") if c_ in f.bodies and writes_captures(c_)]
+            if stateful:
+                problems.append(("whether a line counts as a comment line must not depend on the lines before it: the recogniser %s keeps state between lines" % stateful[0], SRC[:200]))
+                continue
             drawn = len([n for n in nexts if n[0] == "iter_next"])
             E0, E1 = "elem0(%s)" % SRC, "elem1(%s)" % SRC
             # are there comment lines after the first?  Asked by drawing a second item, or by collecting the remainder
